@@ -187,12 +187,31 @@ theorem eager_fragment_trace : ∀ (x : X), eagerOnly x = true → trace x = pro
   | .allCases .., h => by simp [eagerOnly] at h
   | .switchCase .., h => by simp [eagerOnly] at h
   | .coalesce .., h => by simp [eagerOnly] at h
+  | .defCalls .., h => by simp [eagerOnly] at h
 theorem eager_fragment_traceL : ∀ (l : List X), eagerOnlyL l = true → traces l = probesL l
   | [], _ => rfl
   | x :: r, h => by
       simp only [eagerOnlyL, Bool.and_eq_true] at h
       simp only [traces, probesL, eager_fragment_trace x h.1, eager_fragment_traceL r h.2]
 end
+
+/-- a function made by `def(f, body)`: defining it evaluates nothing, and every one of `n` calls `f()`
+    evaluates the body once more - `n` calls, `n` times the body's probes; no call, no probe -/
+theorem thunk_per_call (body : X) (n : Nat) :
+    trace (.defCalls body (List.replicate n true) []) = (List.replicate n (trace body)).flatten := by
+  simp only [trace, traces]
+  induction n with
+  | zero => simp [callsTrace]
+  | succ k ih => simp [List.replicate_succ, callsTrace, ih]
+
+/-- the slots between the calls keep their own place and are evaluated once each -/
+theorem thunk_slots (body o : X) (ps : List Bool) (os : List X) :
+    trace (.defCalls body (true :: ps) os) = trace body ++ trace (.defCalls body ps os) ∧
+    trace (.defCalls body (false :: ps) (o :: os)) = trace o ++ trace (.defCalls body ps os) := by
+  simp [trace, traces, callsTrace]
+
+example : trace (.defCalls (.tick 1 .leaf) [true, false, true] [.tick 2 .leaf]) = [1, 2, 1] := by decide
+example : trace (.defCalls (.tick 1 .leaf) [false] [.tick 2 .leaf]) = [2] := by decide
 
 theorem short_circuit_and (a b : X) :
     trace (.and_ a b false) = trace a ∧ trace (.and_ a b true) = trace a ++ trace b := by
